@@ -450,6 +450,7 @@ class Poly(meta(metaclass=PolyMeta)):
     if isinstance(other, Poly):
       if len(other) == 1:
         delta, value = next(iteritems(other._data))
+        value = thub(value, len(self)) # A Stream feeds every coefficient
         return Poly(OrderedDict(((k - delta), operator.truediv(v, value))
                                 for k, v in iteritems(self._data)),
                     zero=self.zero)
